@@ -35,7 +35,7 @@ DESCRIBE = {
 RULE = ("stores: every bins-per-chromosome layout with 1-3 chromosomes and n <= 4 (quick) / <= 5 (thorough) bins plus seeded "
         "random layouts up to n = 6 / 8, nnz <= 5 / 7, float bin column `weight` with NaNs, integer bin column `mychrom`, "
         "float pixel column `extra`; per table and per column key (default, every single name, every non-empty subset, a "
-        "reordered list, a chained key) ALL row keys with bounds in [-n, n] U {None} and all scalars in [-n, n) "
+        "reordered list, a chained key) ALL row keys with bounds in [-n, n] U {None, n+1, n+1000} and all scalars in [-n, n) "
         "(nnz for the pixel table); annotate: every sequence of <= 3 stored pixels (every sub-multiset in every order), "
         "long repeated lists (more pixels than bins), custom index labels, int/uint id dtypes, replace both ways, "
         "bins as whole frame, selector, selector with a column list, and every contiguous part containing the needed "
@@ -46,7 +46,8 @@ TRUSTED = ["h5py: `dset[lo:hi]` has Python slice semantics; `grp.keys()` order; 
            "`iloc[int array]` positional take with negative wrap and IndexError outside [-n, n); `concat(axis=1)` of frames "
            "with equal 0..m-1 index; `Categorical.from_codes`",
            "the stored table handed to the model is read raw with h5py (that what is stored is what was created is C01)"]
-ASSUMPTIONS = ["row keys: slice bounds in [-n, n] U {None}, not reversed, step None/1; scalars in [-n, n)",
+ASSUMPTIONS = ["row keys: slice bounds None or >= -n (bounds beyond the end are clipped as Python slices are), not reversed "
+               "after clipping, step None/1; scalars in [-n, n)",
                "column keys: non-empty lists of existing, distinct names, or one existing name",
                "annotate: pixel frame has integer bin1_id and bin2_id columns (signed, or unsigned below 64 bits); the bin "
                "frame is a contiguous part of the bin table labelled by bin id and contains every referenced bin",
@@ -85,14 +86,18 @@ def make_spec(rng, sizes, nnz):
     return {"sizes": list(sizes), "weight": weight, "mychrom": mychrom, "pixels": pixels}
 
 
+def _chromname(spec, c):
+    return gen.chromname(c) if "prefix" not in spec else f"{spec['prefix']}{c}"
+
+
 def _bins_df(spec):
     chrom, start, end = [], [], []
     for c, k in enumerate(spec["sizes"]):
         for b in range(k):
-            chrom.append(gen.chromname(c))
+            chrom.append(_chromname(spec, c))
             start.append(10 * b)
             end.append(10 * b + (10 if b < k - 1 else 7))
-    names = [gen.chromname(c) for c in range(len(spec["sizes"]))]
+    names = [_chromname(spec, c) for c in range(len(spec["sizes"]))]
     return pd.DataFrame({
         "chrom": pd.Categorical(chrom, categories=names, ordered=True),
         "start": np.array(start, dtype=np.int64), "end": np.array(end, dtype=np.int64),
@@ -127,6 +132,12 @@ def store_path(spec, intchrom=False):
                 pass
     _COUNTER[0] += 1
     p = os.path.join(gen.tmpdir(), f"c14-{os.getpid()}-{_COUNTER[0]}.cool")
+    write_store(p, spec, intchrom)
+    _CACHE[key] = p
+    return p
+
+
+def write_store(p, spec, intchrom):
     cooler.create_cooler(p, _bins_df(spec), _pixels_df(spec), columns=["count", "extra"],
                          dtypes={"extra": np.float64}, ordered=True)
     if intchrom:
@@ -134,8 +145,6 @@ def store_path(spec, intchrom=False):
             codes = f["bins/chrom"][:]
             del f["bins/chrom"]
             f["bins"].create_dataset("chrom", data=np.asarray(codes, dtype=np.int32))
-    _CACHE[key] = p
-    return p
 
 
 # ----------------------------------------------------------------------------------------------
@@ -214,8 +223,9 @@ def pykey(key):
 
 
 def all_keys(n):
-    """every slice with bounds in [-n, n] U {None} and every scalar in [-n, n)"""
-    bounds = [None] + list(range(-n, n + 1))
+    """every slice with bounds in [-n, n] U {None, n+1, n+1000} (bounds beyond the end are clipped like Python
+    slices) and every scalar in [-n, n)"""
+    bounds = [None] + list(range(-n, n + 1)) + [n + 1, n + 1000]
     out = [["s", a, b] for a in bounds for b in bounds]
     out += [["k", k] for k in range(-n, n)]
     return out
@@ -361,6 +371,18 @@ def _commutes(case):
     return None
 
 
+def _range_index(index):
+    """the pandas RangeIndex with these labels (an arithmetic progression)"""
+    if len(index) == 0:
+        return pd.RangeIndex(3, 3)
+    if len(index) == 1:
+        return pd.RangeIndex(index[0], index[0] + 1)
+    step = index[1] - index[0]
+    r = pd.RangeIndex(index[0], index[-1] + step, step)
+    assert list(r) == index, (list(r), index)
+    return r
+
+
 IDTYPES = {"int64": np.int64, "int32": np.int32, "uint8": np.uint8, "uint16": np.uint16, "uint32": np.uint32}
 
 
@@ -394,7 +416,28 @@ def _annotate(case):
             data[name] = np.array(col, dtype=np.int32)
         else:
             data[name] = np.array([np.nan if v is None else v for v in col], dtype=np.float64)
-    pixels = pd.DataFrame(data, columns=pxcols, index=pd.Index(index, dtype=np.int64))
+    kind = case.get("index_kind", "int64")
+    if kind == "iloc":
+        # a positional slice / reversal / stride of a frame carrying pandas' default index
+        base = case["base_rows"]
+        bdata = {}
+        for j, name in enumerate(pxcols):
+            col = [r[j] for r in base]
+            if name in ("bin1_id", "bin2_id"):
+                bdata[name] = np.array(col, dtype=idtype)
+            elif name == "count":
+                bdata[name] = np.array(col, dtype=np.int32)
+            else:
+                bdata[name] = np.array([np.nan if v is None else v for v in col], dtype=np.float64)
+        pixels = pd.DataFrame(bdata, columns=pxcols).iloc[slice(*case["sl"])]
+    elif kind == "range":
+        pixels = pd.DataFrame(data, columns=pxcols, index=_range_index(index))
+    elif kind == "default":
+        pixels = pd.DataFrame(data, columns=pxcols)
+    else:
+        pixels = pd.DataFrame(data, columns=pxcols, index=pd.Index(index, dtype=IDTYPES.get(kind, np.int64)))
+    if [int(i) for i in pixels.index] != index or len(pixels) != len(pxrows):
+        raise AssertionError(f"harness built a pixel frame with index {list(pixels.index)} instead of {index}")
     ids = [r[j] for r in pxrows for j, name in enumerate(pxcols) if name in ("bin1_id", "bin2_id")]
     forms = case.get("forms") or all_forms(n, ids)
     sel = c.bins() if fields is None else c.bins()[fields]
@@ -435,7 +478,7 @@ def _process_slice(case):
     for key, a in zip(keys, ans):
         if not a["in_domain"]:
             continue
-        if key[0] == "s" and a["model"].get("ok") != a["indices"]:
+        if key[0] == "s" and a["narrow"] and a["model"].get("ok") != a["indices"]:
             raise AssertionError(f"processSlice_spec contradicted on n={n} {key}: {a}")
         try:
             r = mixin._process_slice(pykey(key), n)
@@ -492,10 +535,32 @@ def pixel_frames(spec, rng, thorough):
     n = sum(spec["sizes"])
     cols = ["bin1_id", "bin2_id", "count", "extra"]
     seqs = [list(s) for r in range(0, 4) for s in itertools.product(range(len(px)), repeat=r)]
-    for s in seqs:
+    for q, s in enumerate(seqs):
         rows = [px[k] for k in s]
         for replace in (False, True):
-            yield {"cols": cols, "rows": rows, "index": list(range(len(rows))), "replace": replace}
+            # the labels 0..m-1 once as pandas' default RangeIndex, once as an int64 Index
+            yield {"cols": cols, "rows": rows, "index": list(range(len(rows))), "replace": replace,
+                   "index_kind": "default" if (q + replace) % 2 else "int64"}
+    # positional slices, reversals and strides of a default-indexed frame: a RangeIndex that is not 0..m-1
+    base = [px[k] for k in range(len(px))] * 2
+    M = len(base)
+    slices = [[a, b, 1] for a in range(M + 1) for b in range(a, M + 1) if (a, b) != (0, M) and b - a <= 4]
+    slices += [[None, None, -1], [None, None, 2], [1, None, 2], [None, None, 3], [M - 1, 0, -2], [0, M, 1]]
+    if not thorough:
+        slices = slices[::3] + slices[-6:]
+    for q, sl in enumerate(slices):
+        rows = base[slice(*sl)]
+        index = list(range(M))[slice(*sl)]
+        yield {"cols": cols, "rows": rows, "index": index, "replace": bool(q % 2), "index_kind": "iloc",
+               "base_rows": base, "sl": sl}
+    for q, (start, step, m) in enumerate([(10, 1, 3), (7, -1, 3), (6, 7, 2), (5, 1, 1), (0, 2, 3), (4, 1, 0), (-3, 1, 4)]):
+        if not px:
+            continue
+        s = [rng.randrange(len(px)) for _ in range(m)]
+        yield {"cols": cols, "rows": [px[k] for k in s], "index": [start + step * t for t in range(m)],
+               "replace": bool(q % 2), "index_kind": "range"}
+        yield {"cols": cols, "rows": [px[k] for k in s], "index": [start + step * t for t in range(m)],
+               "replace": not bool(q % 2), "index_kind": rng.choice(["int32", "int64", "uint8" if start >= 0 and step > 0 else "int64"])}
     # index labels other than 0..m-1, id dtypes, selector with a column list, reordered pixel columns
     extra = []
     for _ in range(24 if thorough else 10):
@@ -603,6 +668,7 @@ def distribution(name, case):
     if name == "annotate":
         yield f"annotate.npixels={min(len(case['rows']), 4)}{'+' if len(case['rows']) > 4 else ''}"
         yield f"annotate.idtype={case.get('idtype', 'int64')}"
+        yield f"annotate.index_kind={case.get('index_kind', 'int64')}"
     elif "store" in case:
         yield f"{name}.table={case['table']}"
         yield f"stores.nbins={sum(case['store']['sizes'])}"
